@@ -28,7 +28,7 @@ ASSUMPTIONS = [
     "'after shutdown() returns' is the instant the awaiting task resumes; events in the same instant but earlier in the log are not counted",
     "tasks / timers created by the harness (user-call runners, the scenario driver) are excluded by identity; every other live task or pending TimerHandle belongs to the client",
 ]
-PROBES = ["c15.as_heartbeat_timeout_reset_closes", "c15.just_before_reconnection_completes", "c15.during_connect_latency", "c15.during_backoff", "c15.mid_handshake", "c15.message_pending", "c15.at_heartbeat", "c15.after_fault",
+PROBES = ["c15.at_client_timer_retry_delay", "c15.at_client_timer_heartbeat_tick", "c15.as_heartbeat_timeout_reset_closes", "c15.just_before_reconnection_completes", "c15.during_connect_latency", "c15.during_backoff", "c15.mid_handshake", "c15.message_pending", "c15.at_heartbeat", "c15.after_fault",
           "c15.reinit", "c15.reinit_changed_installation", "c15.socket_class", "c15.shutdown_twice", "c15.quick_reinit_with_pending", "c15.heartbeat_after_reinit", "c15.during_slow_reset", "c15.periodic_job_due_with_full_buffer", "c15.after_reconnection_dead_on_arrival", "c15.during_stalled_handshake", "c15.during_blocked_write", "c15.heartbeat_during_slow_close"]
 
 
@@ -57,6 +57,17 @@ def generate(rng, index: int, tier: str) -> dict:
         fates.append({"kind": "accept", "latency": rng.choice([0.0, 0.5])})
         t_fail = sum(f["latency"] for f in fates[:1])
         t_s = t0 + G.pick_time(rng, 0.0, t_fail + 2.0 * nfail + 0.5, anchors=[t_fail, t_fail + 2.0, t_fail + 4.0])
+        if rng.random() < 0.3:
+            # at the instant the j-th retry delay (a loop timer of the client) runs out, give or take a few loop passes
+            j = rng.randint(1, nfail)
+            t_j = sum(f["latency"] for f in fates[:j]) + 2.0 * j
+            info["stop_at_client_close"] = "timer"
+            info["stop_timer_window"] = [t_j - 0.0625, t_j + 0.0625]
+            info["t_arm"] = t_j - 1.0
+            info["timer_kind"] = "retry_delay"
+            knobs["iter_cost"] = 2.0**-16
+            info["stop_delta"] = rng.randint(-4, 8) * 2.0**-16
+            t_s = t_j + 0.0625
     elif where == "handshake":
         d = rng.choice([0.0, 0.125, 0.5])
         if d:
@@ -102,7 +113,16 @@ def generate(rng, index: int, tier: str) -> dict:
             tl.append({"at": t_s + rng.choice([3.0, 12.0, 40.0]), "op": "net.rst"})
             tl.append({"at": t_s + 50.0, "op": "net.stall", "on": False})
             info["heartbeat_during_slow_close"] = True
-        elif not sock and rng.random() < 0.3:
+        elif not sock and rng.random() < 0.25:
+            # at the instant the heartbeat's (or the AT4 poll's) own 300 s timer falls due, give or take a few loop passes
+            info["stop_at_client_close"] = "timer"
+            info["stop_timer_window"] = [300.0 * k - 0.5, 300.0 * k + 0.5 + 14 * lat]
+            info["t_arm"] = 300.0 * k - 5.0
+            info["timer_kind"] = "heartbeat_tick"
+            knobs["iter_cost"] = 2.0**-16
+            info["stop_delta"] = rng.randint(-4, 10) * 2.0**-16
+            t_s = 300.0 * k + 1.0
+        elif not sock and rng.random() < 0.4:
             # the console stops answering heartbeats: 330 s after the last answer the client resets the connection on its own,
             # and shutdown() is called in the loop pass in which that reset closes the transport
             tl.append({"at": 6.0 + 6 * 2 * lat, "op": "console.mute", "kinds": ["version_request"]})
@@ -203,7 +223,8 @@ def generate(rng, index: int, tier: str) -> dict:
     if "stop_at_client_close" in info:
         if info["stop_at_client_close"] == "timer":
             # ... or at the very instant the client's heartbeat deadline (a loop timer) falls due, give or take a few loop passes
-            tl.append({"at": info.pop("t_arm"), "op": "sched.at_timer", "lo": 329.0, "hi": 332.0, "delta": info.get("stop_delta", 0.0), "then": stop_step})
+            lo_w, hi_w = info.get("stop_timer_window", [329.0, 332.0])
+            tl.append({"at": info.pop("t_arm"), "op": "sched.at_timer", "lo": lo_w, "hi": hi_w, "delta": info.get("stop_delta", 0.0), "then": stop_step})
         else:
             tl.append({"at": info.pop("t_arm"), "op": "net.at_client_close", "order": info["stop_at_client_close"], "then": stop_step})
         t_s += 5.0
@@ -345,7 +366,9 @@ def execute(sc: dict) -> dict:
         probes["c15.after_reconnection_dead_on_arrival"] = 1
     if "stop_before_accept" in info:
         probes["c15.just_before_reconnection_completes"] = 1
-    if "stop_at_client_close" in info:
+    if info.get("timer_kind"):
+        probes["c15.at_client_timer_" + info["timer_kind"]] = 1
+    elif "stop_at_client_close" in info:
         probes["c15.as_heartbeat_timeout_reset_closes"] = 1
     if info.get("poll_with_full_buffer"):
         probes["c15.periodic_job_due_with_full_buffer"] = 1
